@@ -215,6 +215,8 @@ def extract_tree(spec):
             for g in b.graph_topo:
                 b.update_scope_tree(g)
             b.resolve_scopes()
+        except (AttributeError, TypeError, NameError, ImportError):
+            raise  # the Builder no longer looks as expected: reported as 'not observable' by the caller
         except Exception as e:  # noqa: BLE001
             return None, ("pre-err", type(e).__name__)
         vid, nid = Ids(), Ids()
@@ -316,7 +318,20 @@ def corrupt(named, rng):
 
 # ------------------------------------------------------------------ worker: one generated program
 def case_worker(task):
+    """Never raises: an exception of the machinery becomes a per-case 'crash' record."""
+    try:
+        return _case_worker(task)
+    except BaseException as e:  # noqa: BLE001
+        import traceback
+
+        return {"crash": f"{type(e).__name__}: {e}", "trace": traceback.format_exc()[-800:], "task": list(task),
+                "status": "crash", "spec": None}
+
+
+def _case_worker(task):
     seed, idx, mode = task
+    want_ort = not mode.endswith("-noort")
+    mode = mode.replace("-noort", "")
     rng = random.Random(f"{seed}:{idx}")
     with warnings.catch_warnings():
         warnings.simplefilter("ignore")
@@ -333,7 +348,10 @@ def case_worker(task):
         if st == "err":
             out["err"] = m
         else:
-            out["bad"] = L.judge_model(m)
+            n0 = len(L.ORT_UNSUPPORTED)
+            out["bad"] = L.judge_model(m, want_ort=want_ort)
+            out["ort_skipped"] = not want_ort
+            out["ort_unsupported"] = L.ORT_UNSUPPORTED[n0:]
             out["named"] = strip_ops(L.proto_to_named(m.graph))
             out["fnamed"] = [strip_ops(L.func_to_named(f)) for f in m.functions]
             out["walker"] = L.walk_named(L.proto_to_named(m.graph))
@@ -360,6 +378,18 @@ def classify(bad):
 
 
 HAND_SPECS = [
+    # a function whose (user-chosen) name looks like the prefixed name of an inlined node
+    # (pinned tree: two nodes called Inline_0__n0_0; fixed by the second fix: commit)
+    {"args": ["f"], "inputs": [["x", 0]], "stmts": [["inline", 0, [0]], ["call", 0, [1]]],
+     "outputs": [["y", 2]], "drop": False,
+     "funcs": [{"name": "Inline_0__n0", "domain": "dom", "nin": 1, "nout": 1,
+                "body": {"stmts": [["op", "neg", 17, [0]]], "outs": [1]}}],
+     "models": [{"ins": ["a"], "outs": ["b"], "nodes": [["Abs", "n0_0", ["a"], ["b"]]], "inits": [], "opset": 17}]},
+    {"args": ["f"], "inputs": [["x", 0]], "stmts": [["call", 0, [0]], ["inline", 0, [1]]],
+     "outputs": [["y", 2]], "drop": False,
+     "funcs": [{"name": "Inline_0__n0", "domain": "dom", "nin": 1, "nout": 1,
+                "body": {"stmts": [["op", "neg", 17, [0]]], "outs": [1]}}],
+     "models": [{"ins": ["a"], "outs": ["b"], "nodes": [["Abs", "n0_0", ["a"], ["b"]]], "inits": [], "opset": 17}]},
     # function used only inside an If body (the pinned-tree defect; fixed by the fix: commit)
     {"args": ["f", "b"], "inputs": [["x", 0], ["c", 1]],
      "stmts": [["if", 1, {"stmts": [["call", 0, [0, 0]]], "outs": [2]}, {"stmts": [], "outs": [0]}, 17]],
@@ -410,15 +440,26 @@ def run(ck: core.Check):
 
     # (a) namespace operations
     if drv is not None:
-        corr_scope(ck, drv)
+        try:
+            corr_scope(ck, drv)
+        except Exception as e:  # noqa: BLE001 - the real class no longer looks as the harness expects
+            ck.broken("correspondence", "C02 ScopeSpace not observable",
+                      f"{type(e).__name__}: {e} (spox._scope.ScopeSpace attributes/signatures changed?)")
 
     # generated programs (oracle on all; naming correspondence on the 'naming' slice)
-    n_oracle = ck.pick(700, 8000)
-    n_naming = ck.pick(350, 3000)
+    n_oracle = ck.pick(1800, 12000)
+    n_naming = ck.pick(700, 5000)
     tasks = [(ck.seed, i, "oracle") for i in range(n_oracle)] + [(ck.seed, 10**6 + i, "naming") for i in range(n_naming)]
-    ctx = mp.get_context("fork")
-    with ctx.Pool(min(14, mp.cpu_count())) as pool:
-        results = pool.map(case_worker, tasks, chunksize=8)
+    results = L.robust_map(case_worker, tasks, min(14, mp.cpu_count()), core.WORK)
+    # a case on which the worker process died (C++ abort inside a third-party judge): judged again without
+    # loading it into onnxruntime; recorded in the evidence
+    died = [i for i, r in enumerate(results) if r.get("died")]
+    if died:
+        again = L.robust_map(case_worker, [(tasks[i][0], tasks[i][1], tasks[i][2] + "-noort") for i in died],
+                             min(14, mp.cpu_count()), core.WORK)
+        for i, r in zip(died, again):
+            results[i] = r
+    ck.cov["process_aborted_in_onnxruntime_rejudged_without_it"] = len(died)
     # hand-written adversarial seeds always run (in-process)
     for hs in HAND_SPECS:
         st, m = L.build_spec(hs)
@@ -432,6 +473,11 @@ def run(ck: core.Check):
             r["err"] = m
         results.append(r)
 
+    crashes = [r for r in results if r.get("crash")]
+    if crashes:
+        ck.broken("correspondence", "C02 generated-program worker failed",
+                  f"{len(crashes)} cases; first: {crashes[0]['crash']} {crashes[0].get('trace', '')[-400:]}")
+    results = [r for r in results if not r.get("crash")]
     dist = {"returned": 0, "raised": {}, "if": 0, "loop": 0, "inline": 0, "call": 0, "max_depth": 0,
             "mixed_versions": 0, "drop_true": 0}
     best: dict[str, dict] = {}
@@ -448,6 +494,7 @@ def run(ck: core.Check):
             ck.count(None)
             continue
         dist["returned"] += 1
+        dist["ort_refused_but_reference_loads"] = dist.get("ort_refused_but_reference_loads", 0) + len(r.get("ort_unsupported", []))
         ck.count(("prog", json.dumps(r["spec"], sort_keys=True)))
         if r["bad"]:
             key = classify(r["bad"])
@@ -490,6 +537,10 @@ def run(ck: core.Check):
 
     # (c) naming correspondence
     if drv is not None:
+        unobs = [r for r in results if "real" in r and r["real"][0] in ("extract-failed",)]
+        if unobs:
+            ck.broken("correspondence", "C02 naming not observable (real Builder internals changed?)",
+                      f"{len(unobs)} cases; first: {unobs[0]['real'][1][:300]}")
         nam = [r for r in results if r.get("tree") is not None]
         outs = drv.ask_many("C02", [{"k": "compile", "tree": r["tree"]} for r in nam])
         mism = 0
